@@ -18,8 +18,8 @@
       unwindindex    `includeArrayIndex` is left out (not null) of a document kept by
                      `preserveNullAndEmptyArrays`
       lookupboolnum  `$lookup` joins `true` to `1` (Python `==`)
-      multiopstage   a stage document with no or several operators is accepted
-      neglimit       `$limit` ≤ 0 and negative `$skip` are accepted (Python slices)
+      limitdouble    `$limit: 2.0` / `$skip: 1.0` (a double without fraction) are rejected;
+                     MongoDB takes them as the integer
     scope limits (nothing is claimed; the model may still be compared with the code)
       nospec         the stage has no oracle in Spec/Pipeline.lean
       filterdomain / sortdomain / projdomain   the parameter is outside the domain of the
@@ -59,8 +59,11 @@ def stageReasons (op : String) (opts : Val) (docs : List Val) : List String :=
        | some spec => tag "sort:" (Spec.Order.specReasons spec docs)
        | none => ["nospec"])
     | _ => ["nospec"]
-  else if op = "$skip" then []
-  else if op = "$limit" then []
+  else if op = "$skip" || op = "$limit" then
+    -- the code wants a Python int; the oracle also takes a double that denotes an accepted count
+    (match opts with
+     | .dbl _ _ => if argRejected op opts then [] else ["limitdouble"]
+     | _ => [])
   else if op = "$count" then []
   else if op = "$project" then
     match opts with
@@ -87,7 +90,11 @@ def pipelineReasons : List Val → List Val → List String
       (match specStage op opts docs with
        | some out => pipelineReasons rest out
        | none => ["nospec"])
-  | _ :: _, _ => ["multiopstage"]
+  | _ :: _, _ => []          -- not a one-field document: rejected (`stageRejected`), no class
+
+/-- … for the verdict `specPipelineV`: a rejected pipeline is rejected whatever its stages hold -/
+def pipelineReasonsV (pipeline docs : List Val) : List String :=
+  if pipeline.any stageRejected then [] else pipelineReasons pipeline docs
 
 def inD (pipeline docs : List Val) : Bool := (pipelineReasons pipeline docs).isEmpty
 
